@@ -36,6 +36,11 @@ CHECKS = {
          "P1/supercells: all 230 first-listed settings (thorough: 530) x molecular crystals x sizes {(1,1,1),(2,1,1),(1,2,3)} (+ all 27 sizes for 10 settings) x both API routes x standard / rotated lattice-vector frame; trigonal switch: 7 groups x 3 (a,c) x 3 asymmetric units incl. special positions (+ bundled R3c) x every word over {H,R} of length <= 3 from either setting, with round-trip, density, volume-ratio and metric checks.",
          "Coincidence tolerance 1e-6 A over lattice translates within +-2 cells; special sites kept away from the merge tolerance; cases failing the C04 precondition skipped.",
          "2/C13"),
+ "C03": ("exploration",
+         "bounded-exhaustive enumeration of (crystal, radius, centre, query) cases against a brute-force periodic search with self-validated range",
+         "Continuous quantifier; bounded-exhaustive over: 5 general atoms in 9 settings x 2 compatible cells (thorough: all 530 settings) + 9 oblique cells (down to 50 deg / up to 125 deg) in P1 and P-1, bundled ice II / acetic acid / R3c, generated molecular crystals in 10 settings; radii {1.2, 3.8, 6, 12, up to 20}; centres inside and far outside the cell; all five query entry points; required <= observed <= allowed with a 1e-6 A band, duplicates, centre exclusion, attributes of matched images.",
+         "Unit-cell atoms taken from the library (validated by C01); atoms_in_radius origin read as Cartesian; reference range = perpendicular widths + 1 shell, asserted empty outermost shell.",
+         "2/C03"),
 }
 
 ALL = ["C%02d" % i for i in range(1, 21)]
